@@ -136,11 +136,16 @@ class LiftCompound(Case):
     props = ("C13",)
     func = VAR + "._lift_over_chromosome_location_compound_interval"
 
-    def __init__(self, n, through_public=False, overlap=False):
-        self.n, self.public, self.overlap = n, through_public, overlap
+    def __init__(self, n, through_public=False, overlap=False, collection=False):
+        self.n, self.public, self.overlap, self.collection = n, through_public, overlap, collection
         meth = "lift_over_location" if through_public else "_lift_over_chromosome_location_compound_interval"
         self.name = f"VariantInterval.{meth}[{n} blocks{' that may overlap' if overlap else ''}, all coordinates]"
         self.call = f"v.{meth}(loc)"
+        if collection:
+            # a haplotype holding this one variant must lift exactly like the variant itself
+            self.name = f"VariantIntervalCollection([v]).lift_over_location[{n} blocks{' that may overlap' if overlap else ''}, all coordinates]"
+            self.call = "VariantIntervalCollection([v]).lift_over_location(loc)"
+            self.module = "gene.variants"
         if through_public:
             self.func = VAR + ".lift_over_location"
         self.ensures = {
@@ -307,7 +312,8 @@ def _edit_model(i, k):
 
 
 CASES = [LiftSingle(), CollectionLiftSingle(), AlternativeSequence(False), AlternativeSequence(True),
-         LiftCompound(2), LiftCompound(3), LiftCompound(2, through_public=True), LiftCompound(2, overlap=True)]
+         LiftCompound(2), LiftCompound(3), LiftCompound(2, through_public=True), LiftCompound(2, overlap=True),
+         LiftCompound(2, overlap=True, collection=True), LiftCompound(2, through_public=True, overlap=True)]
 
 CANARIES = [
     dict(name="lift-over: insertion abutting block start", props=("C13",), file="inscripta/biocantor/gene/variants.py",
